@@ -378,9 +378,37 @@ func init() {
 			if f.Failed() {
 				return
 			}
-			for n, txn := range m.BadNode {
+			// An instance that has come up again (the harness restarts failed
+			// instances like a service manager) gets the time one incarnation
+			// needs to run into the value again: several polls after its
+			// start. Only an incarnation that has been up that long is judged.
+			need := 4*(f.Cfg.Poll+f.Cfg.StPoll) + 3*f.Cfg.Retry + 2*time.Second
+			for round := 0; round < 4; round++ {
+				pending := false
+				for n := range m.BadNode {
+					if ret, _ := n.SyncReturned(n.Inc); n.Running && !ret && f.Sim.Now()-n.StartedAt < need {
+						pending = true
+					}
+				}
+				if !pending {
+					break
+				}
+				f.Drain(need)
+				if f.Failed() {
+					return
+				}
+			}
+			for _, n := range f.Nodes {
+				txn, bad := m.BadNode[n]
+				if !bad {
+					continue
+				}
 				// The instance must have stopped with an error.
 				ret, err := n.SyncReturned(n.Inc)
+				if n.Running && !ret && f.Sim.Now()-n.StartedAt < need {
+					f.Sim.Probe("c14-malformed-node-restarted-late")
+					continue
+				}
 				if n.Running && !(ret && err != nil) {
 					f.Violate(Violation{"C14", "malformed-rejected", "no-error-on-malformed-value",
 						fmt.Sprintf("%s holds a malformed value since txn %d but its sync loop neither failed nor stopped (returned=%v err=%v)", n.Name, txn, ret, err)})
